@@ -471,6 +471,12 @@ func c08EngineLayer(x *c08Ctx, c *Ctx) int64 {
 		{false, c08P1, []string{"important"}}, {true, c08P1, nil}, {false, c08P1, []string{"denyallow=x.com"}}, {false, c08P2, nil}, {false, c08P1, []string{"~image"}},
 		{false, c08P3, nil}, {true, "||src.org^", []string{"urlblock"}}, // the latter matches the referrer only
 	}
+	// a rule just below 4 KiB whose twin is just above (lists are read line by line)
+	if p := c08Pool(); strings.HasPrefix(p[len(p)-1].opts[0], "domain=src.org|pad") {
+		web = append(web, p[len(p)-1])
+	} else {
+		panic(HarnessError("the long rule is not the last one of the pool"))
+	}
 	dns := []srule{
 		{false, c08P1, nil}, {false, c08P1, []string{"important"}}, {true, c08P1, nil}, {false, c08P1, []string{"dnstype=A"}}, {false, c08P1, []string{"dnstype=~AAAA"}},
 		{false, c08P1, []string{"ctag=pc"}}, {false, c08P1, []string{"client=10.0.0.1"}}, {false, c08P1, []string{"denyallow=x.com"}}, {false, c08P1, []string{"dnsrewrite=1.2.3.4"}},
